@@ -177,6 +177,20 @@ CLAIMS = {
         "Grid values only; sets whose coordinates coincide after rounding must be refused or numbered consistently.",
         "DESIGN.md §3 C19",
     ),
+    "C12": (
+        "exploration",
+        "exhaustive boundary grid of devices x registers / layouts with an exact rational-arithmetic oracle",
+        "3429 cases: 16 devices {dimensions} x {max atoms} x {min distance} x {max radius} x 213 registers (one pair at "
+        "d-1e-3, d-5e-7, d, d+1e-3, 0, 1e-7, 2e-6 along x and along a 3-4-5 direction with the violating pair at every index "
+        "position, atoms at radius R-1e-3, R, R+1e-3, counts max / max+1, 3D registers, every atom order) through "
+        "validate_register and Sequence(); expected accept / refuse and the exact offending pairs / atoms from Fractions; "
+        "layout-based registers for fillings {0.5,1,0.4,0.45,0.57,0.35,0.29,0.58,0.07,0.7} x trap bounds x trap and atom counts "
+        "around the limit (incl. products that are integers only in exact arithmetic); automatic layouts on a physical device "
+        "and max_connectivity registers must be accepted by their device; device construction (+ specs / docs rendering) for "
+        "each optional parameter None / valid / boundary / invalid.",
+        "Don't-care bands: distances within 1e-6 below the minimum, radii within 1e-14 relative of the maximum.",
+        "DESIGN.md §3 C12",
+    ),
 }
 
 PENDING_REASON = "check not built yet in this round (design in DESIGN.md §3); nothing is claimed for it"
